@@ -71,11 +71,31 @@ theorem rec_entry {s : TM} (hi : Inv s) (t : String) (i : Nat) (p : Point) (k : 
     rw [h2]; simpa using hne
   simp [rec, this]
 
+/-- The input edge of `t` if `t` is live. -/
+def TM.liveEdge (s : TM) (t : String) : Option Edge := if s.isLive t then s.tasks t else none
+
+theorem liveEdge_none {s : TM} {t : String} (h : s.liveEdge t = none) : s.isLive t = false := by
+  unfold TM.liveEdge at h
+  by_cases hl : s.isLive t = true
+  · simp only [hl, if_true] at h
+    simp [TM.isLive, h] at hl
+  · simpa using hl
+
+theorem liveEdge_some {s : TM} {t : String} {e : Edge} (h : s.liveEdge t = some e) :
+    s.tasks t = some e ∧ s.forkKeysOf t ≠ [] := by
+  unfold TM.liveEdge at h
+  by_cases hl : s.isLive t = true
+  · simp only [hl, if_true] at h
+    refine ⟨h, ?_⟩
+    simp only [TM.isLive, Bool.and_eq_true, Bool.not_eq_true', List.isEmpty_eq_false_iff] at hl
+    exact hl.2
+  · simp [hl] at h
+
 /-- **Routing of one point to one sink.** Under the table invariant, `forkPoint` hands `p` to the sink under from-node #`i`
-of task `t` exactly once when `t` is executing, declares `p`'s (db, rp) and the from-node matches — and not at all otherwise. -/
+of task `t` exactly once when `t` is live, declares `p`'s (db, rp) and the from-node (chain) matches — and not at all otherwise. -/
 theorem fork_one {s : TM} (hi : Inv s) (t : String) (i : Nat) (p : Point) :
     (events s p).filterMap (rec t i) =
-      match s.tasks t with
+      match s.liveEdge t with
       | some e => if decide ((p.db, p.rp) ∈ e.task.dbrps) && sinkGets e.task i p then [p.id] else []
       | none => [] := by
   unfold events
@@ -88,20 +108,22 @@ theorem fork_one {s : TM} (hi : Inv s) (t : String) (i : Nat) (p : Point) :
   have hneW' : ∀ x ∈ (s.forks (p.db, p.rp, "")).filter
       (fun x => !(s.forks (p.db, p.rp, p.name)).any (fun y => y.1 == x.1)), x.1 ≠ t → h x = none :=
     fun x hx => hneW x (List.mem_filter.mp hx).1
-  cases ht : s.tasks t with
+  cases hl : s.liveEdge t with
   | none =>
     simp only []
-    rw [filterMap_absent h hneE (hi.no_entry ht _),
-      filterMap_absent h hneW' (fun x hx => hi.no_entry ht _ x (List.mem_filter.mp hx).1)]
+    have hnl := liveEdge_none hl
+    rw [filterMap_absent h hneE (hi.no_entry hnl _),
+      filterMap_absent h hneW' (fun x hx => hi.no_entry hnl _ x (List.mem_filter.mp hx).1)]
     rfl
   | some e0 =>
     simp only []
+    obtain ⟨ht, hk0⟩ := liveEdge_some hl
     have hid : e0.task.id = t := hi.owner t e0 ht
     have hrec : h (t, e0) = if sinkGets e0.task i p then some p.id else none := by
       simp [h, rec, hid]
     by_cases hE : (p.db, p.rp, p.name) ∈ e0.task.keys
     · -- served under the exact key; the second loop skips it
-      have hmem := hi.reg t e0 ht _ hE
+      have hmem := hi.reg t e0 ht hk0 _ hE
       rw [filterMap_present h (hi.nodup _) hneE hmem]
       rw [filterMap_absent h hneW' (by
         intro x hx hxt
@@ -120,7 +142,7 @@ theorem fork_one {s : TM} (hi : Inv s) (t : String) (i : Nat) (p : Point) :
       rw [filterMap_absent h hneE habsE]
       by_cases hW : (p.db, p.rp, "") ∈ e0.task.keys
       · -- served under the empty-measurement key only
-        have hmem := hi.reg t e0 ht _ hW
+        have hmem := hi.reg t e0 ht hk0 _ hW
         have hmem' : (t, e0) ∈ (s.forks (p.db, p.rp, "")).filter
             (fun x => !(s.forks (p.db, p.rp, p.name)).any (fun y => y.1 == x.1)) := by
           refine List.mem_filter.mpr ⟨hmem, ?_⟩
